@@ -7,6 +7,7 @@ package sio
 func verifH_C18_api_lifecycle() {
 	var hitF, hitG int
 	which := verifChoose(0, 4)
+	mode := verifChoose(0, 2) // Off(f) / Off() without arguments: everything goes / Off(f, g)
 	switch which {
 	case 0:
 		m := &Manager{openHandlers: newHandlerStore[*ManagerOpenFunc]()}
@@ -14,7 +15,14 @@ func verifH_C18_api_lifecycle() {
 		g := func() { hitG++ }
 		m.OnOpen(f)
 		m.OnOpen(g)
-		m.OffOpen(f)
+		switch mode {
+		case 0:
+			m.OffOpen(f)
+		case 1:
+			m.OffOpen()
+		case 2:
+			m.OffOpen(f, g)
+		}
 		for _, h := range m.openHandlers.getAll() {
 			(*h)()
 		}
@@ -24,7 +32,14 @@ func verifH_C18_api_lifecycle() {
 		g := func(*Namespace) { hitG++ }
 		s.OnNewNamespace(f)
 		s.OnNewNamespace(g)
-		s.OffNewNamespace(f)
+		switch mode {
+		case 0:
+			s.OffNewNamespace(f)
+		case 1:
+			s.OffNewNamespace()
+		case 2:
+			s.OffNewNamespace(f, g)
+		}
 		for _, h := range s.newNamespaceHandlers.getAll() {
 			(*h)(nil)
 		}
@@ -34,7 +49,14 @@ func verifH_C18_api_lifecycle() {
 		g := func(error) { hitG++ }
 		s.OnError(f)
 		s.OnError(g)
-		s.OffError(f)
+		switch mode {
+		case 0:
+			s.OffError(f)
+		case 1:
+			s.OffError()
+		case 2:
+			s.OffError(f, g)
+		}
 		for _, h := range s.errorHandlers.getAll() {
 			(*h)(nil)
 		}
@@ -44,7 +66,14 @@ func verifH_C18_api_lifecycle() {
 		g := func() { hitG++ }
 		s.OnConnect(f)
 		s.OnConnect(g)
-		s.OffConnect(f)
+		switch mode {
+		case 0:
+			s.OffConnect(f)
+		case 1:
+			s.OffConnect()
+		case 2:
+			s.OffConnect(f, g)
+		}
 		for _, h := range s.connectHandlers.getAll() {
 			(*h)()
 		}
@@ -54,13 +83,24 @@ func verifH_C18_api_lifecycle() {
 		g := func(ServerSocket) { hitG++ }
 		n.OnConnection(f)
 		n.OnConnection(g)
-		n.OffConnection(f)
+		switch mode {
+		case 0:
+			n.OffConnection(f)
+		case 1:
+			n.OffConnection()
+		case 2:
+			n.OffConnection(f, g)
+		}
 		for _, h := range n.connectionHandlers.getAll() {
 			(*h)(nil)
 		}
 	}
 	verifAssert(hitF == 0, "a handler removed with Off no longer runs")
-	verifAssert(hitG == 1, "Off leaves the other handlers in place")
+	if mode == 0 {
+		verifAssert(hitG == 1, "Off leaves the other handlers in place")
+	} else {
+		verifAssert(hitG == 0, "Off without arguments removes every handler of that event; Off(f, g) removes both")
+	}
 	verifReach("end")
 }
 
